@@ -32,7 +32,7 @@ CLAIMED = {
    note="presence/absence is a compile-gate fact (not solver-derived); 10 of the 2^6 x 2 x 2 configurations are sampled; generic #[entry_points(generics<..>)] and the legacy reply entry point are outside; stubs: Backtrace::capture, fmt::format",
    ref="§3 C06"),
  "C04": dict(
-   text="CBMC decides, for the real #[entry_points] expansion of corpus `basic` (19 handlers in 5 kinds, wire name `tick{n}` present as exec, query AND sudo, instantiate and migrate sharing their argument names): every well-formed message of kind K1 (symbolic choice and argument values), decoded by the real contract-level message of kind K2 != K1 and, when accepted, pushed through entry_points::<K2> with echo handlers, never runs a handler annotated with another kind; it is rejected unless K2 itself has a message of that name/shape, in which case K2's OWN handler runs. One harness per ordered pair of kinds; the compile gate additionally builds corpus `names` (identifiers with leading/trailing/double underscores and digits) with typed references to its entry points. The MULTITEST path is decided too: the generated `impl cw_multi_test::Contract` (execute/instantiate/query/sudo/migrate) of a contract without migrate handler and of `basic`, with from_json replaced by a serde-doc decoder, accepts on each operation exactly the messages of its own kind.",
+   text="CBMC decides, for the real #[entry_points] expansion of corpus `basic` (19 handlers in 5 kinds, wire name `tick{n}` present as exec, query AND sudo, instantiate and migrate sharing their argument names): every well-formed message of kind K1 (symbolic choice and argument values), decoded by the real contract-level message of kind K2 != K1 and, when accepted, pushed through entry_points::<K2> with echo handlers, never runs a handler annotated with another kind; it is rejected unless K2 itself has a message of that name/shape, in which case K2's OWN handler runs. One harness per ordered pair of kinds; the compile gate additionally builds corpus `names` (identifiers with leading/trailing/double underscores and digits) with typed references to its entry points. It also names every entry point of the 10 override configurations of corpus `ovr` with the message type of its own kind (an override registered under another kind changes which entry points exist and what they take). The MULTITEST path is decided too: the generated `impl cw_multi_test::Contract` (execute/instantiate/query/sudo/migrate) of a contract without migrate handler and of `basic`, with from_json replaced by a serde-doc decoder, accepts on each operation exactly the messages of its own kind.",
    note="facade container model (validated by a native pre-flight against the real container); JSON text layer outside on both paths (multitest: sylvia::cw_std::from_json replaced by the facade, feature mt_docs); the reply kind and the cw-multi-test App around the Contract impl are outside; error text stubbed; program dimension sampled by one contract + 2 interfaces",
    ref="§3 C04"),
  "C03": dict(
